@@ -136,6 +136,27 @@ func (rc *RunCtx) Add(f Finding) {
 
 func (rc *RunCtx) Thorough() bool { return rc.Tier == "thorough" }
 
+// Unsuppressed counts the findings no known-findings entry covers (they will be reported as violations).
+func (rc *RunCtx) Unsuppressed() int {
+	known := loadKnown()
+	n := 0
+	for i := range rc.Findings {
+		f := rc.Findings[i]
+		f.Property = rc.ID
+		hit := false
+		for j := range known {
+			if known[j].matches(&f) {
+				hit = true
+				break
+			}
+		}
+		if !hit {
+			n++
+		}
+	}
+	return n
+}
+
 // Finish classifies findings, prints the verdict lines, writes evidence and exits.
 func (rc *RunCtx) Finish() {
 	known := loadKnown()
